@@ -261,7 +261,38 @@ func verifRunServed(out *verifkit.Trace, sim *verifsim.Sim, rng *rand.Rand, sid 
 			split = 1 + rng.Intn(len(items)-1)
 		}
 		doc := map[string]any{"type": "OrderedCollection", "totalItems": len(items)}
-		if split == len(items) && rng.Intn(2) == 0 {
+		/* the count a collection states is advisory: servers hide it, leave it at 0 or let it go stale */
+		switch rng.Intn(4) {
+		case 0:
+			doc["totalItems"] = 0
+		case 1:
+			doc["totalItems"] = 99
+		case 2:
+			delete(doc, "totalItems")
+		}
+		if len(items) >= 2 && rng.Intn(3) == 0 {
+			/* one item to a page, and one or two empty pages between them (never more than three empty ones in a
+			   row, the collection itself included): a source like any other */
+			doc["first"] = h.URL(root + "?page=1")
+			page := 1
+			for k := range items {
+				this := map[string]any{"type": "OrderedCollectionPage", "orderedItems": []any{items[k]}}
+				at := page
+				page++
+				if k < len(items)-1 {
+					this["next"] = h.URL(fmt.Sprintf("%s?page=%d", root, page))
+					for e := 1 + rng.Intn(2); e > 0; e-- {
+						empty := map[string]any{"type": "OrderedCollectionPage", "next": h.URL(fmt.Sprintf("%s?page=%d", root, page+1))}
+						if rng.Intn(2) == 0 {
+							empty["orderedItems"] = []any{}
+						}
+						serve(h, fmt.Sprintf("%s?page=%d", root, page), empty, 0)
+						page++
+					}
+				}
+				serve(h, fmt.Sprintf("%s?page=%d", root, at), this, 0)
+			}
+		} else if split == len(items) && rng.Intn(2) == 0 {
 			doc["orderedItems"] = items
 		} else {
 			doc["first"] = h.URL(root + "?page=1")
